@@ -138,3 +138,68 @@ Definition global_case := (N * list gop * list (list (option upd)))%type.
 Definition check_global (c : global_case) : N :=
   let '(M, ops, ds) := c in
   grun M (map (fun _ => init) (N_seq M), []) ops ds false.
+
+(* --- manager case: a cluster of real GossipMembershipManagers joined by a captured transport --- *)
+From NV.C17 Require Import Mgr.
+
+Definition states_view (R : N) (us : list (N * upd)) : list (option upd) := map (aget us) (N_seq R).
+Definition gmsg_eqb (R : N) (a b : gmsg) : bool :=
+  match a, b with
+  | GSync s us t, GSync s' us' t' =>
+      N.eqb s s' && N.eqb t t' && list_eqb (option_eqb upd_eqb) (states_view R us) (states_view R us')
+      && N.eqb (N.of_nat (length us)) (N.of_nat (length us'))
+  | GSusp r s i, GSusp r' s' i' => N.eqb r r' && N.eqb s s' && N.eqb i i'
+  | GAliv n i, GAliv n' i' => N.eqb n n' && N.eqb i i'
+  | GPReq o t q, GPReq o' t' q' => N.eqb o o' && N.eqb t t' && N.eqb q q'
+  | GPAck o t q k, GPAck o' t' q' k' => N.eqb o o' && N.eqb t t' && N.eqb q q' && Bool.eqb k k'
+  | _, _ => false
+  end.
+Definition genv_eqb (R : N) (a b : N * gmsg) : bool := N.eqb (fst a) (fst b) && gmsg_eqb R (snd a) (snd b).
+
+(* per step: Lamport clock and per-member dump of the touched manager, envelopes it sent *)
+Definition mobs := (N * list (option upd) * list (N * gmsg))%type.
+Definition mgr_case := (N * N * bool * list mop * list mobs)%type.
+
+(* oracle state over the implementation's observations: last (clock, dump) seen per manager and the
+   highest incarnation each member announced in an Alive of its own *)
+Definition ostate := (list (N * (N * list (option upd))) * list (N * N))%type.
+Definition announce (r : N) (an : list (N * N)) (out : list (N * gmsg)) : list (N * N) :=
+  fold_left (fun an dm => match snd dm with
+                          | GAliv n i => if N.eqb n r then aset an n (N.max (ann_of an n) i) else an
+                          | _ => an end) out an.
+Definition oracle_mgr (o : ostate) (r : N) (ob : mobs) : option ostate :=
+  let '(last, an) := o in
+  let '(c, d, out) := ob in
+  let an' := announce r an out in
+  if negb (match aget last r with Some (c0, d0) => N.leb c0 c && dump_mono d0 d | None => true end) then None
+  else if negb (bounded_dump an' 0 d) then None
+  else Some (aset last r (c, d), an').
+
+Definition touched_of (s : msys) (o : mop) : N :=
+  match o with
+  | MRound r _ | MSuspectNode r _ => r
+  | MDeliver k => match nth_error (mpool s) (N.to_nat k) with Some (dst, _) => dst | None => 0 end
+  end.
+
+Fixpoint mwalk (R maxd : N) (ex : bool) (s : msys) (o : ostate) (ops : list mop) (os : list mobs) (mm : bool) : N :=
+  match ops, os with
+  | [], [] => if mm then V_MISMATCH else V_OK
+  | op :: ops', ob :: os' =>
+      let r := touched_of s op in
+      match oracle_mgr o r ob with
+      | None => V_VIOLATION
+      | Some o' =>
+          let '(s', _) := mstep sup maxd ex s op in
+          let '(c, d, out) := ob in
+          let g := nth_mgr (mgrs s') r in
+          let added := skipn (length (mpool s)) (mpool s') in
+          let agree := N.eqb (clock (lww g)) c && list_eqb (option_eqb upd_eqb) (dump R (lww g)) d
+                       && list_eqb (genv_eqb R) added out in
+          mwalk R maxd ex s' o' ops' os' (mm || negb agree)
+      end
+  | _, _ => 9
+  end.
+
+Definition check_mgr (c : mgr_case) : N :=
+  let '(R, maxd, ex, ops, os) := c in
+  mwalk R maxd ex (minit sup R) ([], []) ops os false.
